@@ -9,5 +9,5 @@ Threshold == 0
 Scenario == "A"
 SibOrder == <<"b", "c">>
 InitSt == [s \in Up \cup {"d"} |-> [status |-> IF s = "d" THEN "NOT_STARTED" ELSE "SUCCEEDED", ver |-> IF s = "d" THEN 0 ELSE 6,
-                                   fired |-> FALSE, cb |-> {}, tver |-> IF s = "d" THEN 0 ELSE 6]]
+                                   fired |-> FALSE, cb |-> {}, tver |-> IF s = "d" THEN 0 ELSE 6, nt |-> 1]]
 ====
